@@ -6,6 +6,8 @@ import SJ.Proofs.GoObject
 import SJ.Proofs.GoArrNum
 import SJ.Proofs.GoApi
 import SJ.Proofs.GoFind
+import SJ.Proofs.GoFindElem
+import SJ.Proofs.GoArrStr
 /-
 C12 — Lookup, filtered iteration and bulk accessors agree with plain traversal.
 -/
@@ -205,5 +207,47 @@ theorem C12_find_follows_source (pj : PJ) (hb : BufOK pj) (v : View) (hl : v.lim
     FPPost pj (pathLast path) nil (D0 nil d0)
       (runFun goFuns goObject_FindPath fuel ⟨fpStore pj v path nil d0 extra, pj.tape⟩) (View.findPathTop pj v path) :=
   SJ.GoFind.go_find_source_tie pj hb v hl key path nil d0 extra i hil fuel mf hmf hf hfi
+
+open SJ.GoSem SJ.Generated SJ.GoIter SJ.GoObject SJ.GoFindElem in
+/-- **Source tie** (DESIGN §6.3). `Iter.FindElement` (`parsed_json.go`) and `Iter.Root` specialised to `cp.Root(&cp)`
+    (destination IS the receiver) are printed from /repo as syntax trees on every run. `FindElement` works on a copy of
+    the receiver, descends through roots (`Root` on itself), steps over the end of a view (`AdvanceInto`) and hands an
+    object to `Object.FindPath` together with the caller's destination and its nil flag. Its meaning under `GoSem.exec`
+    is the model's `Iter.findElement`: non-nil and nil error with the same type, name and iterator exactly when the
+    model finds the path, an error exactly when the model errs, a panic exactly when it panics; never stuck, neither side
+    out of fuel; the receiver and the tape are not modified. -/
+theorem C12_findElement_follows_source (pj : PJ) (hb : BufOK pj) (i : Iter) (hl : i.lim ≤ pj.tape.size) (hlim : i.lim < 2^63)
+    (hoff : i.off < 2^63) (path : List Bytes) (nil : Bool) (nm tv : Val) (d0 : Iter) (extra : Env) (fuel : Nat)
+    (hf : 4 * i.lim + 17 ≤ fuel) :
+    SimRootSelf pj.tape (envOf "i" i ++ extra) (runFun goFuns goIter_Root_self fuel ⟨envOf "i" i ++ extra, pj.tape⟩)
+      (i.root pj) ∧
+    FEPost pj (GoFind.pathLast path) nil (GoFind.D0 nil d0) i
+      (runFun goFuns goIter_FindElement fuel ⟨feStore pj i path nil nm tv d0 extra, pj.tape⟩)
+      (Iter.findElement pj path i (fuelOf pj)) ∧
+    (((∃ s, runFun goFuns goIter_FindElement fuel ⟨feStore pj i path nil nm tv d0 extra, pj.tape⟩ =
+          .ret s [.bool true, .bool false]) ↔ ∃ ty d, Iter.findElement pj path i (fuelOf pj) = .ok (ty, d)) ∧
+     ((∃ s b, runFun goFuns goIter_FindElement fuel ⟨feStore pj i path nil nm tv d0 extra, pj.tape⟩ =
+          .ret s [.bool b, .bool true]) ↔ ∃ e, Iter.findElement pj path i (fuelOf pj) = .error e) ∧
+     (runFun goFuns goIter_FindElement fuel ⟨feStore pj i path nil nm tv d0 extra, pj.tape⟩ = .panic ↔
+        Iter.findElement pj path i (fuelOf pj) = .panic) ∧
+     (∀ w, runFun goFuns goIter_FindElement fuel ⟨feStore pj i path nil nm tv d0 extra, pj.tape⟩ ≠ .stuck w) ∧
+     runFun goFuns goIter_FindElement fuel ⟨feStore pj i path nil nm tv d0 extra, pj.tape⟩ ≠ .diverge ∧
+     Iter.findElement pj path i (fuelOf pj) ≠ .diverge ∧
+     (∀ s vs, runFun goFuns goIter_FindElement fuel ⟨feStore pj i path nil nm tv d0 extra, pj.tape⟩ = .ret s vs →
+        s.tape = pj.tape ∧ iterAt s.env "i" = some i)) :=
+  SJ.GoFindElem.go_findelement_source_tie pj hb i hl hlim hoff path nil nm tv d0 extra fuel hf
+
+open SJ.GoSem SJ.Generated SJ.GoIter SJ.GoObject SJ.GoDelete SJ.GoArrStr in
+/-- **Source tie** (DESIGN §6.3). `Array.AsString` and `Array.AsStringCvt` (`parsed_array.go`), printed from /repo on
+    every run (`[]string` carried as a list of byte strings), mean under `GoSem.exec` the model's `View.asString` and
+    `asStringCvt` (the same loop with `Iter.String` resp. `Iter.StringCvt`): the same strings and nil, or nil and an
+    error; neither side panics or diverges on a view of the tape; never stuck. -/
+theorem C12_string_accessors_follow_source (pj : PJ) (hb : BufOK pj) (v : View) (hl : v.lim ≤ pj.tape.size) (extra : Env) (F : Nat)
+    (hF : fuelOf pj + v.lim + cvtBound pj + 13 ≤ F) :
+    StrTie pj (runFun goFuns goArray_AsString F ⟨arrStore pj v extra, pj.tape⟩)
+      (View.asString pj v.iter #[] (fuelOf pj)) ∧
+    StrTie pj (runFun goFuns goArray_AsStringCvt F ⟨arrStore pj v extra, pj.tape⟩)
+      (asStringCvt pj v.iter #[] (fuelOf pj)) :=
+  SJ.GoArrStr.go_arrstr_source_tie pj hb v hl extra F hF
 
 end SJ.Properties.C12
